@@ -8,7 +8,7 @@ namespace EPV.Cmp
 open EPV.CmpSpec EPV.CmpFind
 
 macro "gp_simp" : tactic => `(tactic|
-  simp [pairGeneral, iterCheck, pairSpec, castUntyped, valueOp, isBoolA, isStrLike3, isStr, isQN, isUri, isInteger,
+  simp [pairGeneral, iterCheck, iterMatch, categoryOK, cmpCategory, kindName, pairSpec, castThen, castUntyped, valueOp, isBoolA, isStrLike3, isStr, isQN, isUri, isInteger,
      Atom.isDur, numRank, castNum, pyOp, pyBinop, subclassFirst, dunder, Atom.pyNum, numCmp, liftPy, dCmp_eq_six, isEqNe, isUA,
      sCmp, iCmp, bCmp, cmpBy_eq_six, Atom.isDT, Atom.isBin, Atom.dt, Atom.binVal, Atom.durVal, durInstanceOf,
      binOrdered, strLtS, strEqS, octLt, D.isNaN])
@@ -21,10 +21,10 @@ theorem strLt_eq : strLt = strLtS := rfl
 
 /-- untypedAtomic (left) against integer / double -/
 theorem pg_ua_num (m : Mode) (op : Op) (s : Str) (b : Atom) (y : D)
-    (hb : (∃ v : Int, b = .int v ∧ y = .fin v ∧ toD64 v = .fin v) ∨ b = .dbl y)
+    (hb : (∃ v : Int, b = .int v ∧ y = .fin v ∧ toD64 v = .fin v) ∨ b = .dbl y ∨ (∃ q : Rat, b = .dec q))
     (h5 : pairSpec m op (.ua s) b ≠ .error .unsupported) :
     pairGeneral m op (.ua s) b = pairSpec m op (.ua s) b := by
-  rcases hb with ⟨v, rfl, rfl, hv⟩ | rfl
+  rcases hb with ⟨v, rfl, rfl, hv⟩ | rfl | ⟨q, rfl⟩
   · revert h5
     gp_simp
     simp only [strToDouble, castDouble]
@@ -33,17 +33,25 @@ theorem pg_ua_num (m : Mode) (op : Op) (s : Str) (b : Atom) (y : D)
     gp_simp
     simp only [strToDouble, castDouble]
     cases lexNum s <;> simp [Except.map, valueOp, numRank, castNum]
+  · revert h5
+    gp_simp
+    simp only [strToDouble, castDouble]
+    cases lexNum s <;> simp [Except.map, valueOp, numRank, castNum]
 
 /-- integer / double (left) against untypedAtomic: the reflected method of UntypedAtomic answers -/
 theorem pg_num_ua (m : Mode) (op : Op) (s : Str) (a : Atom) (x : D)
-    (ha : (∃ v : Int, a = .int v ∧ x = .fin v ∧ toD64 v = .fin v) ∨ a = .dbl x)
+    (ha : (∃ v : Int, a = .int v ∧ x = .fin v ∧ toD64 v = .fin v) ∨ a = .dbl x ∨ (∃ q : Rat, a = .dec q))
     (h5 : pairSpec m op a (.ua s) ≠ .error .unsupported) :
     pairGeneral m op a (.ua s) = pairSpec m op a (.ua s) := by
-  rcases ha with ⟨v, rfl, rfl, hv⟩ | rfl
+  rcases ha with ⟨v, rfl, rfl, hv⟩ | rfl | ⟨q, rfl⟩
   · revert h5
     gp_simp
     simp only [strToDouble, castDouble]
     cases lexNum s <;> simp [Except.map, valueOp, numRank, castNum, hv, six_swap]
+  · revert h5
+    gp_simp
+    simp only [strToDouble, castDouble]
+    cases lexNum s <;> simp [Except.map, valueOp, numRank, castNum, six_swap]
   · revert h5
     gp_simp
     simp only [strToDouble, castDouble]
@@ -174,9 +182,7 @@ theorem strToB64_err {s : Str} {e : PyR} (h : strToB64 s = .error e) : e = .unsu
   simp only [strToB64] at h
   split at h
   · cases h
-  · split at h
-    · cases h; exact Or.inr rfl
-    · cases h; exact Or.inl rfl
+  · cases h; exact Or.inr rfl
 
 /-- the outer layer of the protocol when the left operand is untyped and the right one a binary -/
 theorem pyOp_ua_hex (m : Mode) (op : Op) (s : Str) (y : List Nat) :
@@ -263,6 +269,36 @@ theorem pyOp_b64_ua (m : Mode) (op : Op) (s : Str) (x : List Nat) :
   | error e =>
     rcases strToB64_err hs with rfl | rfl <;> simp
 
+/-- two QNames through the Python protocol (any fuel ≥ 2); the prefix plays no role -/
+theorem qn_protocol (m : Mode) (op : Op) (a p b c q d : Str) (f : Nat) :
+    liftPy (pyBinop m op (.qn a p b) (.qn c q d) (f + 2)) = valueOp (binOrdered m) op (.qn a [] b) (.qn c q d) := by
+  cases op <;> simp [pyBinop, subclassFirst, dunder, liftPy, valueOp, numRank, isEqNe, six, Op.swap, PyR.map] <;> grind
+
+theorem strToQName_err {s : Str} {e : PyR} (h : strToQName s = .error e) :
+    e = .unsupported ∨ e = .valueErr ∨ e = .exc .keyError := by
+  unfold strToQName at h
+  split at h <;> cases h <;> simp
+
+theorem pyOp_ua_qn (m : Mode) (op : Op) (s ns pre loc : Str) :
+    pyOp m op (.ua s) (.qn ns pre loc) =
+      match strToQName s with
+      | .ok (ns', _, loc') => pyBinop m op (.qn ns' [] loc') (.qn ns [] loc) 6
+      | .error e => e := by
+  have h : dunder m op (.ua s) (.qn ns pre loc) 7 =
+      match strToQName s with
+      | .ok (ns', _, loc') => pyBinop m op (.qn ns' [] loc') (.qn ns [] loc) 6
+      | .error e => e := by rfl
+  show pyBinop m op (.ua s) (.qn ns pre loc) (7 + 1) = _
+  rw [pyBinop_step m op _ _ 7 rfl, h]
+  cases hs : strToQName s with
+  | ok x =>
+    obtain ⟨a, b, c⟩ := x
+    have := pyBinop_ne_notImpl m op (.qn a [] c) (.qn ns [] loc) 6
+    simp only
+    try (split <;> simp_all)
+  | error e =>
+    rcases strToQName_err hs with rfl | rfl | rfl <;> simp
+
 theorem valueOp_bin_swap (bo : Bool) (op : Op) (x y : List Nat) :
     valueOp bo op.swap (.hex y) (.hex x) = valueOp bo op (.hex x) (.hex y) ∧
     valueOp bo op.swap (.b64 y) (.b64 x) = valueOp bo op (.b64 x) (.b64 y) := by
@@ -270,7 +306,24 @@ theorem valueOp_bin_swap (bo : Bool) (op : Op) (x y : List Nat) :
 
 theorem pairGeneral_ua_left (m : Mode) (op : Op) (s : Str) (b : Atom) (hb : isUA b = false) :
     pairGeneral m op (.ua s) b = liftPy (pyOp m op (.ua s) b) := by
-  cases b <;> simp_all [pairGeneral, iterCheck, isUA]
+  cases b <;> simp_all [pairGeneral, iterCheck, iterMatch, categoryOK, isUA]
+
+/-- untypedAtomic (left) against QName, XPath 3.1: the untyped value is cast to a QName in no namespace -/
+theorem pg_ua_qn (op : Op) (s ns pre loc : Str)
+    (h5 : pairSpec .v31 op (.ua s) (.qn ns pre loc) ≠ .error .unsupported) :
+    pairGeneral .v31 op (.ua s) (.qn ns pre loc) = pairSpec .v31 op (.ua s) (.qn ns pre loc) := by
+  rw [pairGeneral_ua_left _ _ _ _ rfl, pyOp_ua_qn]
+  revert h5
+  simp only [pairSpec, castThen, castUntyped, strToQName, if_true]
+  cases ncName s with
+  | valid v =>
+    intro _
+    have := qn_protocol .v31 op [] [] v ns [] loc 4
+    simp only [this]
+    cases op <;> simp [valueOp, numRank, isEqNe]
+  | invalid => intro _; simp [liftPy]
+  | prefixed => intro h; simp at h
+  | unsupported => intro h; simp at h
 
 /-- untypedAtomic against hexBinary / base64Binary, either side -/
 theorem pg_ua_hex (m : Mode) (op : Op) (s : Str) (y : List Nat)
@@ -287,7 +340,7 @@ theorem pg_hex_ua (m : Mode) (op : Op) (s : Str) (x : List Nat)
     (h5 : pairSpec m op (.hex x) (.ua s) ≠ .error .unsupported) :
     pairGeneral m op (.hex x) (.ua s) = pairSpec m op (.hex x) (.ua s) := by
   have : pairGeneral m op (.hex x) (.ua s) = liftPy (pyOp m op (.hex x) (.ua s)) := by
-    simp [pairGeneral, iterCheck]
+    simp [pairGeneral, iterCheck, iterMatch, categoryOK]
   rw [this, pyOp_hex_ua]
   by_cases hw : hasInnerWs s = true
   · exact absurd (by simp [pairSpec, castUntyped, hw]) h5
@@ -297,15 +350,12 @@ theorem pg_hex_ua (m : Mode) (op : Op) (s : Str) (x : List Nat)
       simp [strToHex, hw, hd, pairSpec, castUntyped, (bin_protocol m op.swap b x 4).1, (valueOp_bin_swap _ op x b).1]
 
 theorem b64_cases (s : Str) :
-    (strToB64 s = .ok [] ∧ castUntyped s (.b64 []) = .ok (.b64 [])) ∨
-    (strToB64 s = .error .valueErr ∧ castUntyped s (.b64 []) = .error .FORG0001) ∨
-    (strToB64 s = .error .unsupported ∧ castUntyped s (.b64 []) = .error .unsupported) := by
+    (∃ x, strToB64 s = .ok x ∧ castUntyped s (.b64 []) = .ok (.b64 x)) ∨
+    (strToB64 s = .error .valueErr ∧ castUntyped s (.b64 []) = .error .FORG0001) := by
   simp only [strToB64, castUntyped]
-  split
-  · exact Or.inl ⟨rfl, rfl⟩
-  · split
-    · exact Or.inr (Or.inl ⟨rfl, rfl⟩)
-    · exact Or.inr (Or.inr ⟨rfl, rfl⟩)
+  cases b64Decode (s.filter fun c => !isWs c) with
+  | some b => exact Or.inl ⟨b, rfl, rfl⟩
+  | none => exact Or.inr ⟨rfl, rfl⟩
 
 theorem castUntyped_b64 (s : Str) (y : List Nat) : castUntyped s (.b64 y) = castUntyped s (.b64 []) := rfl
 
@@ -313,21 +363,19 @@ theorem pg_ua_b64 (m : Mode) (op : Op) (s : Str) (y : List Nat)
     (h5 : pairSpec m op (.ua s) (.b64 y) ≠ .error .unsupported) :
     pairGeneral m op (.ua s) (.b64 y) = pairSpec m op (.ua s) (.b64 y) := by
   rw [pairGeneral_ua_left _ _ _ _ rfl, pyOp_ua_b64]
-  rcases b64_cases s with ⟨h1, h2⟩ | ⟨h1, h2⟩ | ⟨h1, h2⟩
-  · simp [h1, pairSpec, castUntyped_b64 s y, h2, (bin_protocol m op [] y 4).2]
+  rcases b64_cases s with ⟨x, h1, h2⟩ | ⟨h1, h2⟩
+  · simp [h1, pairSpec, castUntyped_b64 s y, h2, (bin_protocol m op x y 4).2]
   · simp [h1, pairSpec, castUntyped_b64 s y, h2, liftPy]
-  · exact absurd (by simp [pairSpec, castUntyped_b64 s y, h2]) h5
 
 theorem pg_b64_ua (m : Mode) (op : Op) (s : Str) (x : List Nat)
     (h5 : pairSpec m op (.b64 x) (.ua s) ≠ .error .unsupported) :
     pairGeneral m op (.b64 x) (.ua s) = pairSpec m op (.b64 x) (.ua s) := by
   have : pairGeneral m op (.b64 x) (.ua s) = liftPy (pyOp m op (.b64 x) (.ua s)) := by
-    simp [pairGeneral, iterCheck]
+    simp [pairGeneral, iterCheck, iterMatch, categoryOK]
   rw [this, pyOp_b64_ua]
-  rcases b64_cases s with ⟨h1, h2⟩ | ⟨h1, h2⟩ | ⟨h1, h2⟩
-  · simp [h1, pairSpec, castUntyped_b64 s x, h2, (bin_protocol m op.swap [] x 4).2, (valueOp_bin_swap _ op x []).2]
+  rcases b64_cases s with ⟨y, h1, h2⟩ | ⟨h1, h2⟩
+  · simp [h1, pairSpec, castUntyped_b64 s x, h2, (bin_protocol m op.swap y x 4).2, (valueOp_bin_swap _ op x y).2]
   · simp [h1, pairSpec, castUntyped_b64 s x, h2, liftPy]
-  · exact absurd (by simp [pairSpec, castUntyped_b64 s x, h2]) h5
 
 set_option maxHeartbeats 1000000 in
 /-- numeric against numeric -/
@@ -344,7 +392,7 @@ theorem pg_numeric (m : Mode) (op : Op) (a b : Atom) (i j : Nat)
     | (cases op <;> simp_all [Op.isEqNe, numericEqual_of_not_tol, numericNotEqual_of_not_tol, six])
 
 macro "lenient_contra" h3:ident : tactic => `(tactic|
-  (simp [trigLenient, specIncomparable, iterAccepts, iterCheck, valueOp, numRank, isUA, isStrLike3, isStr, isQN,
+  (simp [trigLenient, specIncomparable, iterAccepts, iterCheck, iterMatch, categoryOK, cmpCategory, kindName, valueOp, numRank, isUA, isStrLike3, isStr, isQN,
         isUri, isInteger, isBoolA, binOrdered, isEqNe, Atom.isDur] at $h3:ident; done))
 
 set_option maxHeartbeats 4000000 in
@@ -352,7 +400,7 @@ theorem pairGeneral_conforms (m : Mode) (op : Op) (a b : Atom)
     (h1 : trigTol false op a b = false) (h2 : trigPromotion false a b = false)
     (h3 : trigLenient m op a b = false) (h4 : trigUntyped op a b = false)
     (h5 : pairSpec m op a b ≠ .error .unsupported) (h6 : pairGeneral m op a b ≠ .error .unsupported)
-    (h7 : ymdOrd op a b = false) (h8 : dtConsistent a b = true) :
+    (h8 : dtConsistent a b = true) (h9 : trigUntypedQN m a b = false) :
     pairGeneral m op a b = pairSpec m op a b := by
   cases hi : numRank a with
   | some i =>
@@ -368,7 +416,8 @@ theorem pairGeneral_conforms (m : Mode) (op : Op) (a b : Atom)
       case int.ua v s =>
         simp [trigPromotion, promRank, numRank, exactVal, castNum] at h2
         exact pg_num_ua m op s _ (.fin v) (Or.inl ⟨v, rfl, rfl, h2⟩) h5
-      case dbl.ua d s => exact pg_num_ua m op s _ d (Or.inr rfl) h5
+      case dbl.ua d s => exact pg_num_ua m op s _ d (Or.inr (Or.inl rfl)) h5
+      case dec.ua q s => exact pg_num_ua m op s _ .nan (Or.inr (Or.inr ⟨q, rfl⟩)) h5
   | none =>
     cases a <;> simp [numRank] at hi <;> cases b <;>
       first
@@ -387,13 +436,17 @@ theorem pairGeneral_conforms (m : Mode) (op : Op) (a b : Atom)
     case ua.int s v =>
       simp [trigPromotion, promRank, numRank, exactVal, castNum] at h2
       exact pg_ua_num m op s _ (.fin v) (Or.inl ⟨v, rfl, rfl, h2⟩) h5
-    case ua.dbl s d => exact pg_ua_num m op s _ d (Or.inr rfl) h5
+    case ua.dbl s d => exact pg_ua_num m op s _ d (Or.inr (Or.inl rfl)) h5
+    case ua.dec s q => exact pg_ua_num m op s _ .nan (Or.inr (Or.inr ⟨q, rfl⟩)) h5
     case ua.bool s y => exact (pg_ua_bool m op s y).1
     case bool.ua y s => exact (pg_ua_bool m op s y).2
     case ua.uri s t => exact pg_ua_uri m op s t h6
     case uri.ua s t => exact pg_uri_ua m op s t h4 h5
-    case ua.qn => exact absurd (by simp [pairSpec, castUntyped]) h5
-    case qn.ua => exact absurd (by simp [pairSpec, castUntyped]) h5
+    case ua.qn s ns pre loc =>
+      have hm : m = .v31 := by simpa [trigUntypedQN] using h9
+      subst hm
+      exact pg_ua_qn op s ns pre loc h5
+    case qn.ua => simp [trigUntypedQN] at h9
     case ua.date => exact pg_ua_temporal m op _ _ rfl h5
     case ua.dtm => exact pg_ua_temporal m op _ _ rfl h5
     case ua.time => exact pg_ua_temporal m op _ _ rfl h5
@@ -412,21 +465,20 @@ theorem pairGeneral_conforms (m : Mode) (op : Op) (a b : Atom)
     case b64.ua x s => exact pg_b64_ua m op s x h5
     case hex.hex x y =>
       have : pairGeneral m op (.hex x) (.hex y) = liftPy (pyBinop m op (.hex x) (.hex y) (6 + 2)) := by
-        simp [pairGeneral, iterCheck, pyOp]
+        simp [pairGeneral, iterCheck, iterMatch, categoryOK, cmpCategory, kindName, pyOp]
       rw [this, (bin_protocol m op x y 6).1]; rfl
     case b64.b64 x y =>
       have : pairGeneral m op (.b64 x) (.b64 y) = liftPy (pyBinop m op (.b64 x) (.b64 y) (6 + 2)) := by
-        simp [pairGeneral, iterCheck, pyOp]
+        simp [pairGeneral, iterCheck, iterMatch, categoryOK, cmpCategory, kindName, pyOp]
       rw [this, (bin_protocol m op x y 6).2]; rfl
     all_goals
       cases op <;> first
         | lenient_contra h3
-        | (simp [ymdOrd, Op.isOrd] at h7; done)
         | (gp_simp; done)
-        | (gp_simp; simp [six, durCmp4_dtd, iCmp, cmpBy, PyR.map, Op.swap]; done)
-        | (gp_simp; simp [six, durCmp4_dtd, iCmp, cmpBy, PyR.map, Op.swap]; grind)
+        | (gp_simp; simp [six, durCmp4_dtd, durCmp4_ymd, iCmp, cmpBy, PyR.map, Op.swap]; done)
+        | (gp_simp; simp [six, durCmp4_dtd, durCmp4_ymd, iCmp, cmpBy, PyR.map, Op.swap]; grind)
         | (gp_simp; rename_i x y; cases x <;> cases y <;> decide +kernel)
-        | (gp_simp; simp [six, durCmp4_dtd, iCmp, cmpBy, PyR.map, Op.swap]; rename_i s t; by_cases h : s = t <;> simp [h] <;> grind)
+        | (gp_simp; simp [six, durCmp4_dtd, durCmp4_ymd, iCmp, cmpBy, PyR.map, Op.swap]; rename_i s t; by_cases h : s = t <;> simp [h] <;> grind)
         | skip
 
 end EPV.Cmp
